@@ -8,7 +8,7 @@ from typing import Any, Dict, FrozenSet, List, Optional, Tuple
 
 from .frontend import AnalysisError, Program, norm
 from .interp import Config, Interp, Leaf
-from .values import (ALL_KINDS, META_KINDS, NODE_KINDS, Frag, SBool, SInt, SList, SNew, SObj, SOpaque, SStr, Sym,
+from .values import (ALL_KINDS, ANY_VALUE_KINDS, META_KINDS, NODE_KINDS, Frag, SBool, SInt, SList, SNew, SObj, SOpaque, SStr, Sym,
                      Unmodelled, short)
 
 CORE = "htmltools._core"
@@ -220,8 +220,27 @@ class SibRow:
         self.indent_zero = indent_is_zero(leaf.atoms)
 
 
+class SkipRow:
+    """The sibling loop never sees a child of these kinds: its iterable is a filtered view of the children (the step emits
+    nothing and leaves the loop state as it is, like a `continue` at the top of the body)."""
+
+    def __init__(self, kinds: Any):
+        self.leaf = None
+        self.element = None
+        self.kinds = frozenset(kinds)
+        self.outcome = "continue"
+        self.exc = None
+        self.cond: Dict[Any, Any] = {}
+        self.free: List[Any] = []
+        self.tokens: List[Tuple[Any, ...]] = []
+        self.next: Dict[str, Any] = {}
+        self.acc_ok = True
+        self.indent_zero = False
+
+
 class Model:
     def __init__(self) -> None:
+        self.sib_skip: Any = None
         self.sib_rows: List[SibRow] = []
         self.sib_carried: List[str] = []
         self.sib_acc: str = ""
@@ -297,6 +316,12 @@ def extract(prog: Program) -> Model:
     m.sib_iter_text = norm(rec.node.iter)
     it = rec.iter_value
     m.sib_iter_ok = isinstance(it, SObj) and it.name == "self"
+    if isinstance(it, SList) and it.mode == "view" and isinstance(it.base, SObj) and it.base.name == "self" and it.kinds is not None:
+        # for child in [x for x in self if <test of x's kind>]: document order, some kinds never reach the body
+        m.sib_iter_ok = True
+        skipped = frozenset(ANY_VALUE_KINDS) - frozenset(it.kinds)
+        if skipped:
+            m.sib_skip = SkipRow(skipped)
     # which carried variable is the accumulator: the one whose after-loop value flows to the return
     accs = [t[1] for t in m.sib_return if t[0] == "LOOP"]
     if len(accs) != 1:
@@ -507,6 +532,8 @@ def initial_state(m: Model, params: Dict[str, Any]) -> Dict[str, Any]:
 
 def sib_matches(m: Model, state: Dict[str, Any], child: Child, params: Dict[str, Any]) -> List[SibRow]:
     out = []
+    if m.sib_skip is not None and child.kind in m.sib_skip.kinds:
+        return [m.sib_skip]
     for r in m.sib_rows:
         if child.kind not in r.kinds:
             continue
